@@ -83,6 +83,10 @@ def run_workers(prop, tier, seed, specs, scratch, timeout):
             out = str(logdir / "result.json")
             env = _worker_env(trees[variant], variant, logdir)
             cmd = [PY, "-m", "vf.worker", mod, str(sh), str(nshards), str(seed), tier, variant, out]
+            if os.environ.get("VF_COVERAGE") and variant == "plain":
+                # development aid (never used by a registered command): line coverage of the library under the workload
+                cmd = [PY, "-m", "coverage", "run", "-p", "--data-file=%s/cov" % os.environ["VF_COVERAGE"],
+                       "--source=dtaidistance", "-m", "vf.worker"] + cmd[3:]
             errf = open(logdir / "stderr.txt", "w")
             p = subprocess.Popen(cmd, cwd=str(VERIF), env=env, stdout=errf, stderr=subprocess.STDOUT,
                                  start_new_session=True)
